@@ -100,6 +100,9 @@ func (e *Engine) newInterp() (*Interp, error) {
 		return nil, err
 	}
 	in.sol = sol
+	if len(e.cfg.Race) > 0 {
+		in.raceEnable(e.cfg.Race)
+	}
 	if e.cfg.Solver2 != "" {
 		s2, err := NewSolver(e.cfg.Solver2, tb, e.cfg.TimeoutMs)
 		if err != nil {
